@@ -5,7 +5,10 @@ use std::thread;
 
 use crossbeam_channel::{Receiver, select};
 use log::{debug, info, warn};
+#[cfg(not(cached_verif))]
 use parking_lot::RwLock;
+#[cfg(cached_verif)]
+use crate::cache::verif::RwLock;
 
 use crate::cache::buffer_event::{BufferConsumer, BufferEvent};
 use crate::cache::command::{CommandStatus, RejectionReason};
@@ -80,6 +83,7 @@ impl<Key> AdmissionPolicy<Key>
         thread::spawn(move || {
             #[cfg(cached_verif)] let _verif_guard = crate::cache::verif::adopt(verif_sink, "consumer");
             #[cfg(cached_verif)] crate::cache::verif::point("R_Recv", 0);
+            #[cfg(cached_verif)] crate::cache::verif::queue_op(2, 2);
             while let Ok(event) = receiver.recv() {
                 match event {
                     BufferEvent::Full(key_hashes) => {
@@ -99,6 +103,7 @@ impl<Key> AdmissionPolicy<Key>
                     break;
                 }
                 #[cfg(cached_verif)] crate::cache::verif::point("R_Recv", 0);
+                #[cfg(cached_verif)] crate::cache::verif::queue_op(2, 2);
             }
         });
     }
@@ -159,6 +164,7 @@ impl<Key> AdmissionPolicy<Key>
     }
 
     pub(crate) fn shutdown(&self) {
+        #[cfg(cached_verif)] crate::cache::verif::queue_op(1, 2);
         let _ = self.sender.clone().send(BufferEvent::Shutdown);
         self.keep_running.store(false, Ordering::Release);
     }
@@ -264,6 +270,12 @@ impl<Key> BufferConsumer for AdmissionPolicy<Key>
 impl<Key> AdmissionPolicy<Key>
     where Key: Hash + Eq + Send + Sync + Clone + 'static, {
     pub(crate) fn verif_cache_weight(&self) -> &CacheWeight<Key> { &self.cache_weight }
+
+    pub(crate) fn verif_lock_ids(&self) -> Vec<(i64, String)> {
+        let mut ids = self.cache_weight.verif_lock_ids();
+        ids.push((&*self.access_frequency as *const _ as i64, "lfu".to_string()));
+        ids
+    }
 
     pub(crate) fn verif_access_channel_len(&self) -> usize { self.sender.len() }
 
